@@ -48,31 +48,7 @@ def mentions(node):
         any(isinstance(n, ast.Name) and n.id == SHARED for n in ast.walk(node))
 
 
-class Lock(Model):
-    type_names = ('threading.Lock',)
-    count = 0
-
-    def __init__(self):
-        Lock.count += 1
-        self.lid = Lock.count
-
-    def py_enter(self, I):
-        I.hooks['atomic_depth'] = I.hooks.get('atomic_depth', 0) + 1
-        if I.hooks['atomic_depth'] == 1:
-            I.hooks['group_counter'] = I.hooks.get('group_counter', 0) + 1
-        return self
-
-    def py_exit(self, I, exc):
-        I.hooks['atomic_depth'] -= 1
-        return False
-
-    def py_getattr(self, I, name):
-        from pyvc.values import Builtin
-        if name == 'acquire':
-            return Builtin('acquire', lambda *a, **k: (self.py_enter(I), True)[1], pure=False)
-        if name == 'release':
-            return Builtin('release', lambda: self.py_exit(I, None), pure=False)
-        raise Unsupported('Lock.' + name)
+from pyvc.models import Lock  # noqa: E402  (threading.Lock model: one indivisible action group)
 
 
 class ThreadPath:
@@ -97,8 +73,6 @@ def thread_paths(repo, prefix):
 
     def body(ctx):
         I = Interp(repo, ctx, models_pkg.default_models())
-        I.models['threading.Lock'] = lambda I_: Lock()
-        I.models['threading.RLock'] = lambda I_: Lock()
         tid = ctx.const(prefix + '_tid', z3.IntSort())
         I.hooks['thread_ident'] = lambda I_: tid
         actions = []
